@@ -12,6 +12,7 @@ import (
 	"fmt"
 	"os"
 	"path/filepath"
+	"runtime"
 	"sort"
 	"strings"
 	"sync"
@@ -193,6 +194,12 @@ func (c *Collector) Guard(test string, h *History) {
 		panic(r) // rejected draw, not a case
 	}
 	c.Case(h)
+	if _, isRT := r.(runtime.Error); isRT {
+		// a Go runtime error can only come from the harness itself (contracts run
+		// inside the VM): that is a broken check, never a violation of the property.
+		c.Count("harness-runtime-error", 1)
+		panic(r)
+	}
 	c.Fail(test, fmt.Sprint(r), h)
 	panic(r)
 }
